@@ -7,14 +7,19 @@
   every float arithmetic / environment.
 -/
 import Nervus.Proofs.Agg
+import Nervus.Proofs.KeyEq
 import Nervus.Proofs.KeyCompare
 set_option exponentiation.threshold 4096
 namespace Nervus.Props.C21
 open Nervus Nervus.Eval Nervus.Agg Nervus.Spec Value
 
-/-- **C21 at full strength** (NOT provable, see `counterexample_nan_groups`): every non-null value of a group
-    has a representative in the DISTINCT set (equivalently: one group per grouping key), for all values. -/
-def C21_full : Prop := ∀ (vs : List Value), ∀ x ∈ vs, x.isNull = false → ∃ e ∈ distinctVals vs, deq e x = true
+/-- **C21 at full strength** — provable after the `fix:` commits: for ALL value lists every non-null value of a
+    group has exactly one representative in the DISTINCT set, w.r.t. the engine's equality made reflexive
+    (`keyEq`; the grouping statement is `groups_one_per_key`). -/
+theorem C21_full (vs : List Value) :
+    (∀ x ∈ vs, x.isNull = false → ∃ e ∈ distinctVals vs, keyEq e x = true) ∧
+    (distinctVals vs).Pairwise (fun a b => keyEq a b = false) :=
+  ⟨fun x hx hn => dedupInto_complete vs [] x hx hn, dedupInto_pairwise vs [] List.Pairwise.nil⟩
 
 /-! ### count, collect -/
 
@@ -72,21 +77,56 @@ theorem min_max_of_total_preorder {α : Type} (cmp : α → α → Ordering) (P 
     (∀ m, maxBy cmp xs = some m → m ∈ xs ∧ ∀ x ∈ xs, cmp x m ≠ .gt) :=
   ⟨fun m hm => minBy_spec cmp h xs hP m hm, fun m hm => maxBy_spec cmp h xs hP m hm⟩
 
-/-! ### DISTINCT = first representatives w.r.t. the engine's `==` -/
+/-! ### DISTINCT = first representatives w.r.t. the engine's equality -/
 
+/-- the equivalence: `keyEq` is the kernel of the normalisation (one NaN, −0.0 → +0.0), hence an equivalence
+    relation on ALL values … -/
+theorem keyEq_equivalence (a b c : Value) :
+    keyEq a a = true ∧ keyEq a b = keyEq b a ∧ (keyEq a b = true → keyEq b c = true → keyEq a c = true) :=
+  ⟨keyEq_refl a, keyEq_symm a b, fun h1 h2 => keyEq_trans h1 h2⟩
+/-- … that contains the engine's `==` (so DISTINCT merges everything `==` / Cypher `=` merges: ±0.0 too) -/
+theorem keyEq_contains_engine_eq (a b : Value) (wa : a.wf = true) (wb : b.wf = true) (h : deq a b = true) :
+    keyEq a b = true := keyEq_of_deq a b wa wb h
 theorem distinct_sound (vs : List Value) : ∀ x ∈ distinctVals vs, x ∈ vs ∧ x.isNull = false := by
   intro x hx
   rcases dedupInto_sub vs [] x hx with h | h
   · simp at h
   · exact h
-theorem distinct_no_duplicates (vs : List Value) : (distinctVals vs).Pairwise (fun a b => deq a b = false) :=
+theorem distinct_no_duplicates (vs : List Value) : (distinctVals vs).Pairwise (fun a b => keyEq a b = false) :=
   dedupInto_pairwise vs [] List.Pairwise.nil
-/-- **C21_partial (DISTINCT)**: every non-null value without NaN inside has a representative -/
-theorem distinct_complete_partial (vs : List Value) (x : Value) (hx : x ∈ vs) (hn : x.isNull = false)
-    (hnan : hasNaN x = false) : ∃ e ∈ distinctVals vs, deq e x = true :=
-  dedupInto_complete vs [] x hx hn (deq_refl_of_noNaN x hnan)
+/-- every non-null value (NaN included) has a representative -/
+theorem distinct_complete (vs : List Value) (x : Value) (hx : x ∈ vs) (hn : x.isNull = false) :
+    ∃ e ∈ distinctVals vs, keyEq e x = true :=
+  dedupInto_complete vs [] x hx hn
 theorem collect_distinct_def (vs : List Value) : collectDistinct vs = .list (distinctVals vs) := rfl
 theorem count_distinct_def (vs : List Value) : countDistinct vs = .int (distinctVals vs).length := rfl
+
+/-! ### hash-based de-duplication / grouping is only correct when the hash respects the equality -/
+
+/-- a `HashSet`/`HashMap` keyed de-duplication computes the same DISTINCT set as the scan by `eq` whenever
+    `eq a b → hash a = hash b` (any element type, any hash) -/
+theorem hash_dedup_correct_if_respects {α H : Type} [DecidableEq H] (h : α → H) (eq : α → α → Bool)
+    (hr : ∀ a b, eq a b = true → h a = h b) (vs : List α) :
+    hashDedupInto h eq [] vs = eqDedupInto eq [] vs :=
+  hashDedup_eq_of_respects h eq hr vs []
+/-- `impl Hash for Value` (floats by `to_bits()`) does NOT respect the derived `==`: 0.0 == −0.0, different hash
+    input — alone and nested in lists and maps -/
+theorem vhash_does_not_respect_eq :
+    deq (.float 0) (.float 0x8000000000000000) = true ∧ vhash (.float 0) ≠ vhash (.float 0x8000000000000000) ∧
+    deq (.list [.float 0]) (.list [.float 0x8000000000000000]) = true ∧
+    vhash (.list [.float 0]) ≠ vhash (.list [.float 0x8000000000000000]) ∧
+    deq (.map [([0x61], .float 0)]) (.map [([0x61], .float 0x8000000000000000)]) = true ∧
+    vhash (.map [([0x61], .float 0)]) ≠ vhash (.map [([0x61], .float 0x8000000000000000)]) := by decide
+/-- hence de-duplicating `Value`s through a `HashSet<Value>` (the seeded change C21-seed1) is wrong:
+    {0.0, −0.0, 3.0} keeps three values where DISTINCT by `==` keeps two -/
+theorem counterexample_hash_dedup_zero_signs :
+    (hashDedupInto vhash deq [] [.float 0, .float 0x8000000000000000, .float 0x4008000000000000]).length = 3 ∧
+    (eqDedupInto deq [] [.float 0, .float 0x8000000000000000, .float 0x4008000000000000]).length = 2 ∧
+    (distinctVals [.float 0, .float 0x8000000000000000, .float 0x4008000000000000]).length = 2 := by decide
+/-- on the NORMALISED grouping keys the hash does respect the key equality (what makes `HashMap<GroupKey, _>`
+    a function of `keyEq`) -/
+theorem grouping_hash_respects_key (a b : Value) (h : keyEq a b = true) : vhash (norm a) = vhash (norm b) :=
+  vhash_respects_keyEq a b h
 
 /-! ### grouping: exactly one output row per key of the partition -/
 
@@ -95,17 +135,19 @@ theorem groups_preserve_rows {α : Type} (rows : List (List Value × α)) (hr : 
     (allRows (groupRows false rows)).Perm (rows.map Prod.snd) := by
   rw [groupRows_eq_fold rows hr]
   simpa [allRows] using groupFold_rows rows []
-/-- every group contains only rows of its own key -/
+/-- every row of a group has a key equivalent to the group's key -/
 theorem groups_key_homogeneous {α : Type} (rows : List (List Value × α)) (hr : rows ≠ []) :
-    ∀ kr ∈ groupRows false rows, ∀ r ∈ kr.2, (kr.1, r) ∈ rows := by
+    ∀ kr ∈ groupRows false rows, ∀ r ∈ kr.2, ∃ k, (k, r) ∈ rows ∧ groupKeyEq k kr.1 = true := by
   rw [groupRows_eq_fold rows hr]
-  exact groupFold_homog rows rows [] (fun _ h => h) (fun kr h => by simp at h)
-/-- **C21_partial (grouping)**: when no grouping key contains a NaN, different groups have different keys —
+  intro kr hkr r hr'
+  obtain ⟨k, hk, he⟩ := groupFold_homog rows rows [] (fun _ h => h) (fun kr h => by simp at h) kr hkr r hr'
+  exact ⟨k, hk, (groupKeyEq_iff k kr.1).2 he⟩
+/-- **one group per key class, for ALL keys** (NaN and ±0.0 included): different groups have inequivalent keys —
     together with the two facts above: one output row per key, holding exactly the rows of that key -/
-theorem groups_one_per_key_partial {α : Type} (rows : List (List Value × α)) (hr : rows ≠ [])
-    (hk : ∀ kr ∈ rows, hasNaN (.list kr.1) = false) : ((groupRows false rows).map Prod.fst).Nodup := by
+theorem groups_one_per_key {α : Type} (rows : List (List Value × α)) (hr : rows ≠ []) :
+    (normKeys (groupRows false rows)).Nodup := by
   rw [groupRows_eq_fold rows hr]
-  exact groupFold_nodup rows [] (fun kr h => deqList_refl kr.1 (hk kr h)) List.nodup_nil
+  exact groupFold_nodup rows [] List.nodup_nil
 /-- Cypher: an aggregation without grouping keys over no rows still yields one row -/
 theorem no_keys_empty_input {α : Type} : groupRows true ([] : List (List Value × α)) = [([], [])] := rfl
 
@@ -121,8 +163,11 @@ example : prefixOk 0 [.int 9223372036854775806, .int 1, .int (-5)] = true := by 
 example : ordOK E0 (Spec.nonNull [.int 3, .null, .float 0x3FF0000000000000, .str [0x61]]) = true := by decide
 example : Agg.min E0 [.int 3, .null, .float 0x3FF0000000000000] = .float 0x3FF0000000000000 ∧
     Agg.max E0 [.int 1, .float 0x3FF0000000000000] = .float 0x3FF0000000000000 := by decide
-example : distinctVals [.int 1, .null, .float 0x3FF0000000000000, .int 1, .float 0x8000000000000000, .float 0]
-    = [.int 1, .float 0x3FF0000000000000, .float 0x8000000000000000] := by decide
+example : distinctVals [.int 1, .null, .float 0x3FF0000000000000, .int 1, .float 0x8000000000000000, .float 0,
+      .float 0x7FF8000000000000, .float 0xFFF8000000000001]
+    = [.int 1, .float 0x3FF0000000000000, .float 0x8000000000000000, .float 0x7FF8000000000000] := by decide
+example : (groupRows false [([.float 0x7FF8000000000000], 0), ([.float 0], 1), ([.float 0xFFF8000000000001], 2),
+      ([.float 0x8000000000000000], 3)]) = [([.float 0x7FF8000000000000], [0, 2]), ([.float 0], [1, 3])] := by decide
 example : (groupRows false [([.int 1], "a"), ([.str [0x78]], "b"), ([.int 1], "c")])
     = [([.int 1], ["a", "c"]), ([.str [0x78]], ["b"])] := by decide
 
@@ -134,20 +179,18 @@ theorem counterexample_pinned_sum_wraps (F : FArith) :
     Agg.Pinned.sum F [.int 9223372036854775807, .int 1] = .int (-9223372036854775808) := by
   rw [pinned_sum_spec F _ (by decide)]; decide
 
-/-- **known finding C21-nan-grouping**: `==` on values is the derived `PartialEq` (NaN ≠ NaN): two NaN rows
-    make two groups for the one key, and DISTINCT keeps both -/
-theorem counterexample_nan_groups :
-    (groupRows false [([.float 0x7FF8000000000000], 0), ([.float 0x7FF8000000000000], 1)]).length = 2 ∧
-    distinctVals [.float 0x7FF8000000000000, .float 0x7FF8000000000000]
+/-- **fixed finding (pinned tree) C21-nan-grouping**: `==` on values is the derived `PartialEq` (NaN ≠ NaN): two
+    NaN rows made two groups for the one key, and DISTINCT kept both -/
+theorem counterexample_pinned_nan_groups :
+    Agg.Pinned.groupKeyEq [.float 0x7FF8000000000000] [.float 0x7FF8000000000000] = false ∧
+    Agg.Pinned.dedupInto [] [.float 0x7FF8000000000000, .float 0x7FF8000000000000]
       = [.float 0x7FF8000000000000, .float 0x7FF8000000000000] := by decide
 
-theorem not_C21_full : ¬ C21_full := by
-  intro h
-  obtain ⟨e, he, hd⟩ := h [.float 0x7FF8000000000000] (.float 0x7FF8000000000000) (by simp) rfl
-  have : e = .float 0x7FF8000000000000 := by
-    have := (distinct_sound _ e he).1
-    simpa using this
-  subst this
-  revert hd; decide
+/-- **fixed finding (pinned tree) C21-zero-sign-grouping**: 0.0 == −0.0 (and DISTINCT merged them) but the
+    `HashMap<Vec<Value>, _>` split the key, because `Hash` feeds bit patterns -/
+theorem counterexample_pinned_zero_sign_groups :
+    deq (.float 0) (.float 0x8000000000000000) = true ∧
+    Agg.Pinned.groupKeyEq [.float 0] [.float 0x8000000000000000] = false ∧
+    Agg.Pinned.dedupInto [] [.float 0, .float 0x8000000000000000] = [.float 0] := by decide
 
 end Nervus.Props.C21
